@@ -227,17 +227,24 @@ void error_handler (const char *err) {
       !in_fatal_error())
     {
 #ifdef LOG_CATCHES
+      /* a catch() that completes inside the master's handler pops its context, which clears the error state:
+       * the enclosing do_catch() must still see why this error cannot be caught */
+      static int pending_error_state;
+
       if (in_mudlib_error_handler)
         {
           debug_message ("{}\t***** error in mudlib error handler (caught)");
           debug_message_with_location (err);
           dump_trace (g_trace_flag);
+          set_error_state (pending_error_state);
           in_mudlib_error_handler = 0;
         }
       else
         {
           in_mudlib_error_handler = 1;
+          pending_error_state = get_error_state (~0);
           mudlib_error_handler (err, 1);
+          set_error_state (pending_error_state);
           in_mudlib_error_handler = 0;
         }
 #endif	/* LOG_CATCHES */
